@@ -349,7 +349,7 @@ func (value Value) Type() Type {
 	case TypeIDStruct:
 		// TODO: A type registry and a reference to a struct type would be useful here for field names.
 		fields := make([]StructField, len(value.Struct))
-		for i := range value.Tuple {
+		for i := range value.Struct {
 			fields[i].Type = value.Struct[i].Type()
 		}
 		return Type{
